@@ -739,12 +739,14 @@ func cmdRun(props map[string]Property, args []string) int {
 	ev.Coverage["exhaustive"] = false
 	ev.Coverage["shards"] = n
 	ev.Coverage["units"] = units
+	ev.Coverage["seeds"] = map[string]any{"VERIF_SEED": seed, "sub_seeds": units, "note": "unit i uses the sub-seed mix(VERIF_SEED, property, i); every case inside a unit derives from it"}
 	ev.Coverage["known_finding_hits"] = total.Stats["known_finding_hits"]
 	ev.Coverage["notes"] = total.Notes
 	ev.Coverage["infra_trouble"] = infra
 	p.Describe(ev)
 	if evs, ok := ev.Coverage["evaluations"].(int64); ok && wall > 0 {
 		ev.Coverage["runs_per_hour"] = int64(float64(evs) / wall * 3600)
+		ev.Coverage["sub_seeds_per_hour"] = int64(float64(units) / wall * 3600)
 	}
 	if !*noEvidence {
 		if err := ev.Write(filepath.Join(*vdir, "evidence", p.ID()+".json")); err != nil {
